@@ -1306,7 +1306,9 @@ class connector( client ):
                         misc.inf if timeout is None else timeout )
 
     def index_to_sender_context( self, index ):
-        return str( index ).encode( 'iso-8859-1' )
+        # The EtherNet/IP sender_context carries exactly 8 octets; longer text would be cut on the
+        # wire, and the echoed context then never matches the one we expect.
+        return str( index % 10**8 ).encode( 'iso-8859-1' )
 
     def issue( self, operations, index=0, fragment=False, multiple=0, timeout=None ):
         """Issue a sequence of I/O operations, returning the corresponding sequence of:
